@@ -30,6 +30,15 @@ func c10Fix() *Fix {
 	f.Image("I3", mtImg, "c", []string{"l1"}, "", "", map[string]string{"n": "3"})
 	f.Index("X3", mtIdx, []string{"I3"}, "", "", nil)
 	f.Index("Y3", mtIdx, []string{"X3"}, "", "", nil)
+	// an image body without the mediaType field, and an index that lists it under the docker manifest type: which type
+	// a pull by digest answers with must not depend on whether index.json has been reloaded since
+	i4 := f.Image("I4", mtImg, "c", []string{"l1"}, "", "", map[string]string{"n": "4"})
+	noMT := []byte(strings.Replace(string(i4.Data), `"mediaType":"`+mtImg+`",`, "", 1))
+	n4 := f.Raw("I4nomt", i4, noMT)
+	d4 := n4.Desc()
+	d4.MediaType = types.MediaTypeDocker2Manifest
+	xd := f.Raw("Xd", f.Items["X3"], h.Index(mtIdx, []h.Desc{d4}, nil, "", nil))
+	xd.Children = []string{"I4nomt"}
 	return f
 }
 
@@ -159,7 +168,7 @@ func c10ValidateLayout(w *h.World, f *Fix, repo string, items, tags []string) []
 
 func c10Specs(tier string) []*h.SeqSpec {
 	f := c10Fix()
-	items := []string{"c", "l1", "l2", "e", "l3s384", "I1", "I1s512", "I2", "X2", "I3", "X3", "Y3", "A1"}
+	items := []string{"c", "l1", "l2", "e", "l3s384", "I1", "I1s512", "I2", "X2", "I3", "X3", "Y3", "I4nomt", "Xd", "A1"}
 	tags := []string{"t", "u"}
 	subjects := []string{f.Items["I1"].Dig}
 	type cfg struct {
@@ -223,6 +232,14 @@ func c10Specs(tier string) []*h.SeqSpec {
 				w.PutManifest("r", f.Items[n].Dig, f.Items[n].MT, f.Items[n].Data)
 			}
 			w.PutManifest("r", "u", f.Items["Y3"].MT, f.Items["Y3"].Data)
+			return nil
+		}})
+		ops = append(ops, h.Op{Name: "push I4 (body without mediaType) by digest as OCI image, then an index listing it as docker type, as u", Do: func(w *h.World) []h.Violation {
+			for _, b := range []string{"c", "l1"} {
+				w.PushBlob("r", f.Items[b].Data, f.Items[b].Dig)
+			}
+			w.PutManifest("r", f.Items["I4nomt"].Dig, mtImg, f.Items["I4nomt"].Data)
+			w.PutManifest("r", "u", mtIdx, f.Items["Xd"].Data)
 			return nil
 		}})
 		blob("r/n", "c")
